@@ -1,0 +1,144 @@
+//! Verification hook H3 (guarded, add-only): a public wrapper around the crate-private register
+//! allocator, so that the real `Frame` can be driven by operation sequences from outside the crate.
+
+use crate::frame::{Arg, AssignedOrReserved, Frame};
+use koto_parser::ConstantIndex;
+
+/// The kind of a function argument, see `frame::Arg`
+#[derive(Clone, Copy, Debug)]
+pub enum VerifArg {
+    /// A named argument
+    Local(u32),
+    /// A named argument that gets unpacked from a container argument
+    Unpacked(u32),
+    /// An unnamed argument
+    Placeholder,
+}
+
+/// A public wrapper around the compiler's `Frame`
+#[derive(Debug)]
+pub struct VerifFrame(Frame);
+
+impl VerifFrame {
+    /// See `Frame::new`
+    pub fn new(local_count: u8, args: &[VerifArg], captures: &[u32]) -> Self {
+        let args: Vec<Arg> = args
+            .iter()
+            .map(|arg| match arg {
+                VerifArg::Local(id) => Arg::Local(ConstantIndex::from(*id)),
+                VerifArg::Unpacked(id) => Arg::Unpacked(ConstantIndex::from(*id)),
+                VerifArg::Placeholder => Arg::Placeholder,
+            })
+            .collect();
+        let captures: Vec<ConstantIndex> =
+            captures.iter().map(|id| ConstantIndex::from(*id)).collect();
+        Self(Frame::new(local_count, &args, &captures, None, false))
+    }
+
+    /// See `Frame::get_local_assigned_register`
+    pub fn get_local_assigned_register(&self, id: u32) -> Option<u8> {
+        self.0.get_local_assigned_register(id.into())
+    }
+
+    /// See `Frame::get_local_assigned_or_reserved_register`: (0 = assigned, 1 = reserved, register)
+    pub fn get_local_assigned_or_reserved_register(&self, id: u32) -> Option<(u8, u8)> {
+        match self.0.get_local_assigned_or_reserved_register(id.into()) {
+            AssignedOrReserved::Assigned(register) => Some((0, register)),
+            AssignedOrReserved::Reserved(register) => Some((1, register)),
+            AssignedOrReserved::Unassigned => None,
+        }
+    }
+
+    /// See `Frame::reserve_local_register`
+    pub fn reserve_local_register(&mut self, id: u32) -> Result<u8, String> {
+        self.0
+            .reserve_local_register(id.into())
+            .map_err(|e| e.to_string())
+    }
+
+    /// See `Frame::defer_op_until_register_is_committed`
+    pub fn defer_op_until_register_is_committed(
+        &mut self,
+        register: u8,
+        bytes: Vec<u8>,
+    ) -> Result<(), String> {
+        self.0
+            .defer_op_until_register_is_committed(register, bytes, Default::default())
+            .map_err(|e| e.to_string())
+    }
+
+    /// See `Frame::commit_local_register`, returns the deferred ops' bytes
+    pub fn commit_local_register(&mut self, register: u8) -> Result<Vec<Vec<u8>>, String> {
+        self.0
+            .commit_local_register(register)
+            .map(|ops| ops.into_iter().map(|op| op.bytes).collect())
+            .map_err(|e| e.to_string())
+    }
+
+    /// See `Frame::assign_local_register`
+    pub fn assign_local_register(&mut self, id: u32) -> Result<u8, String> {
+        self.0
+            .assign_local_register(id.into())
+            .map_err(|e| e.to_string())
+    }
+
+    /// See `Frame::add_to_exported_ids`
+    pub fn add_to_exported_ids(&mut self, id: u32) {
+        self.0.add_to_exported_ids(id.into())
+    }
+
+    /// See `Frame::push_register`
+    pub fn push_register(&mut self) -> Result<u8, String> {
+        self.0.push_register().map_err(|e| e.to_string())
+    }
+
+    /// See `Frame::pop_register`
+    pub fn pop_register(&mut self) -> Result<u8, String> {
+        self.0.pop_register().map_err(|e| e.to_string())
+    }
+
+    /// See `Frame::peek_register`
+    pub fn peek_register(&self, n: usize) -> Result<u8, String> {
+        self.0.peek_register(n).map_err(|e| e.to_string())
+    }
+
+    /// See `Frame::register_stack_size`
+    pub fn register_stack_size(&self) -> usize {
+        self.0.register_stack_size()
+    }
+
+    /// See `Frame::truncate_register_stack`
+    pub fn truncate_register_stack(&mut self, stack_count: usize) -> Result<(), String> {
+        self.0
+            .truncate_register_stack(stack_count)
+            .map_err(|e| e.to_string())
+    }
+
+    /// See `Frame::next_temporary_register`
+    pub fn next_temporary_register(&self) -> u8 {
+        self.0.next_temporary_register()
+    }
+
+    /// See `Frame::available_registers_count`
+    pub fn available_registers_count(&self) -> u8 {
+        self.0.available_registers_count()
+    }
+
+    /// See `Frame::captures_for_nested_frame`
+    pub fn captures_for_nested_frame(&self, accessed_non_locals: &[u32]) -> Vec<u32> {
+        let ids: Vec<ConstantIndex> = accessed_non_locals
+            .iter()
+            .map(|id| ConstantIndex::from(*id))
+            .collect();
+        self.0
+            .captures_for_nested_frame(&ids)
+            .into_iter()
+            .map(u32::from)
+            .collect()
+    }
+
+    /// See `Frame::registers_used`
+    pub fn registers_used(&self) -> u8 {
+        self.0.registers_used()
+    }
+}
